@@ -50,6 +50,9 @@ TReset == /\ (IsEvent("reset") \/ IsEvent("abort"))
           /\ trec' = [k \in RecKeys |-> NoRec] /\ trel' = {}
           /\ blobs' = [code |-> {}, dl |-> {}, st |-> {}]
           /\ dAcc' = {} /\ oDirty' = {} /\ dCode' = {} /\ dDl' = {} /\ dVal' = {} /\ dRec' = {} /\ dRel' = FALSE /\ jd' = {} /\ unex' = {} /\ nod' = {} /\ zomb' = {}
+          /\ dsk' = [tr |-> <<[a \in Accts |-> ZeroAcc], [v \in Vals |-> NoVal], <<>>, [k \in RecKeys |-> NoRec], {}>>,
+                     blobs |-> [code |-> {}, dl |-> {}, st |-> {}]]
+          /\ cacc' = [a \in Accts |-> ZeroAcc] /\ fl' = TRUE /\ garb' = FALSE /\ fo' = FALSE
           /\ clean' = "commit" /\ copyOk' = TRUE /\ failed' = FALSE /\ hist' = <<>>
 
 Act(e) == LET a == e.args IN
@@ -72,6 +75,9 @@ Act(e) == LET a == e.args IN
      [] e.ev = "Reload"     -> Reload /\ DumpMatches(e.live, acc', val', wq', rec', rel')
      [] e.ev = "Copy"       -> CopyStep("Copy") /\ DumpMatches(e.orig, acc, val, wq, rec, rel) /\ (copyOk' <=> e.copy = e.orig)
      [] e.ev = "CopySwap"   -> CopyStep("CopySwap") /\ DumpMatches(e.orig, acc, val, wq, rec, rel) /\ (copyOk' <=> e.copy = e.orig)
+     [] e.ev = "Flush"      -> Flush /\ DumpMatches(e.disk, acc, val, wq, rec, rel)
+     [] e.ev = "GC"         -> GC
+     [] e.ev = "Restart"    -> Restart /\ DumpMatches(e.live, acc', val', wq', rec', rel')
      [] OTHER -> FALSE
 
 \* the end marker of a behaviour: the main object's final dump (after a last root computation) against the model
